@@ -181,9 +181,13 @@ func (workerPoolSelf *DefaultWorkerPool) generateWorkerWithMaximum(maximum int) 
 	isBusy := false
 
 	go func() {
+		// exitedNormally stays false when a job ends this goroutine without returning
+		// (runtime.Goexit, e.g. testing.T.FailNow, or a panic that recover() reports as nil)
+		exitedNormally := false
+
 		// Recover & Recycle
 		defer func() {
-			jobPanicked := false
+			jobPanicked := !exitedNormally
 			if panic := recover(); panic != nil {
 				jobPanicked = true
 				if handler := workerPoolSelf.panicHandler; handler != nil {
@@ -211,6 +215,7 @@ func (workerPoolSelf *DefaultWorkerPool) generateWorkerWithMaximum(maximum int) 
 			workerPoolSelf.lastAliveTime = time.Now()
 
 			if workerPoolSelf.IsClosed() {
+				exitedNormally = true
 				return
 			}
 
@@ -240,6 +245,7 @@ func (workerPoolSelf *DefaultWorkerPool) generateWorkerWithMaximum(maximum int) 
 				workerPoolSelf.lock.RUnlock()
 			}
 		}
+		exitedNormally = true
 	}()
 }
 
